@@ -60,6 +60,7 @@ class RunInfo:
         storage: str | dict[OUTPUT_TYPE, str],
         cleanup: bool = True,
     ) -> RunInfo:
+        _requires_serialization(storage)  # raises for unknown storage names, before the folder is touched
         run_folder = _maybe_run_folder(run_folder, storage)
         if run_folder is not None:
             if cleanup:
